@@ -77,10 +77,21 @@ func runC23(p *Prog, r *Report) {
 			pos, v := stripNot(cond)
 			tk := taken == pos
 			// "bytes.IndexByte(path, 0) >= 0" false  => no NUL
+			// the edge establishes "no NUL byte" iff the comparison outcome, together with the post-condition of
+			// IndexByte (-1 or a position), entails that the result is -1 - decided in the zone domain, so that
+			// 'n >= 0', 'n != -1', 'n < 0' all count and a weakened 'n > 0' does not
 			if bo, ok := v.(*ssa.BinOp); ok {
-				if c, isCall := bo.X.(*ssa.Call); isCall && stdCall(c, "bytes", "IndexByte") {
-					if k, okc := constInt(c.Call.Args[1]); okc && k == 0 && !tk {
-						st.Set(bNul)
+				for _, o := range []ssa.Value{bo.X, bo.Y} {
+					if c, isCall := o.(*ssa.Call); isCall && stdCall(c, "bytes", "IndexByte") {
+						if k, okc := constInt(c.Call.Args[1]); okc && k == 0 {
+							z := newZone()
+							n := z.node(c)
+							z.add(0, 0, n, 0, 1)
+							z.assumeCmp(bo.Op, bo.X, bo.Y, tk)
+							if !z.infeasible() && z.entails(n, 0, 0, 0, -1) {
+								st.Set(bNul)
+							}
+						}
 					}
 				}
 			}
